@@ -42,6 +42,12 @@ def func_segment(src: str, qualname: str) -> Tuple[int, int]:
     return start, end
 
 
+def _compiles(src: str):
+    with warnings.catch_warnings():
+        warnings.simplefilter("ignore")
+        compile(src, "<mutant>", "exec", dont_inherit=True)
+
+
 def in_func(qualname: str, old: str, new: str, count: int = 1, occurrence: int = 0) -> Callable[[str], str]:
     """Replace `old` by `new` inside function `qualname` (the occurrence-th match, `count` must equal the number of matches
     unless count is None)."""
@@ -60,7 +66,7 @@ def in_func(qualname: str, old: str, new: str, count: int = 1, occurrence: int =
                 idx = seg.find(old, idx + 1)
             seg2 = seg[:idx] + new + seg[idx + len(old):]
         out = src[:s] + seg2 + src[e:]
-        compile(out, "<mutant>", "exec", dont_inherit=True)  # a mutant must still compile
+        _compiles(out)  # a mutant must still compile
         return out
 
     return edit
@@ -72,7 +78,7 @@ def in_module(old: str, new: str, count: int = 1) -> Callable[[str], str]:
         if n == 0 or (count is not None and n != count):
             raise LookupError(f"module: expected {count} x {old!r}, found {n}")
         out = src.replace(old, new)
-        compile(out, "<mutant>", "exec", dont_inherit=True)
+        _compiles(out)
         return out
 
     return edit
